@@ -37,16 +37,17 @@ const (
 
 // OriginCall is what the fake origin received.
 type OriginCall struct {
-	Serial   int64
-	Tid      int
-	Method   string
-	Host     string
-	Path     string
-	RawQuery string
-	Header   http.Header
-	Body     []byte
-	Rid      string
-	Upstream string
+	ClockBegin int64
+	Serial     int64
+	Tid        int
+	Method     string
+	Host       string
+	Path       string
+	RawQuery   string
+	Header     http.Header
+	Body       []byte
+	Rid        string
+	Upstream   string
 }
 
 // OriginResp is the scripted answer.
@@ -69,18 +70,20 @@ type Event struct {
 
 // Result of one client request.
 type Result struct {
-	Rid     string
-	Method  string
-	Host    string
-	URI     string
-	Status  int
-	Header  http.Header
-	Body    []byte
-	XStatus string
-	Age     string
-	Begin   int64
-	End     int64
-	Panic   string
+	Rid        string
+	Method     string
+	Host       string
+	URI        string
+	Status     int
+	Header     http.Header
+	Body       []byte
+	XStatus    string
+	Age        string
+	Begin      int64
+	End        int64
+	ClockBegin int64 // virtual clock when the request began / ended (scheduler runs only)
+	ClockEnd   int64
+	Panic      string
 }
 
 type Env struct {
@@ -213,6 +216,7 @@ func (e *Env) proxy(name string, c *elton.Context) error {
 		Rid:      req.Header.Get("X-Verif-Rid"),
 		Upstream: name,
 	}
+	call.ClockBegin = vsched.PeekClock()
 	e.Log(Event{Step: call.Serial, Kind: "origin-begin", Call: call})
 	vsched.Yield(ResOriginStart)
 	resp := e.Respond(call)
@@ -294,6 +298,7 @@ func (e *Env) Do(r Req) *Result {
 	}
 	res := &Result{Rid: r.Rid, Method: r.Method, Host: r.Host, URI: r.URI}
 	res.Begin = vsched.Step()
+	res.ClockBegin = vsched.PeekClock()
 	e.Log(Event{Step: res.Begin, Kind: "req-begin", Res: res})
 	rec := httptest.NewRecorder()
 	func() {
@@ -309,6 +314,7 @@ func (e *Env) Do(r Req) *Result {
 	res.Body = append([]byte(nil), rec.Body.Bytes()...)
 	res.XStatus = res.Header.Get("X-Status")
 	res.Age = res.Header.Get("Age")
+	res.ClockEnd = vsched.PeekClock()
 	res.End = vsched.Step()
 	e.Log(Event{Step: res.End, Kind: "req-end", Res: res})
 	return res
